@@ -171,6 +171,10 @@ def run_probe(unit, values, sig):
                 raise FD.Unknown("strlen of %r" % (a,), n)
             if nm in ("fprintf", "printf"):
                 return 0
+            fs_ = [f_ for q_, fl_ in unit.functions.items() if q_.split("::")[-1] == (nm or "") for f_ in fl_ if unit.body(f_) is not None and f_ is not fn]
+            if len(fs_) == 1 and len(unit.params(fs_[0])) == len(ks) - 1:
+                # a helper of the unit (the conversion of one value): evaluated in place
+                return ev.call_function(unit, fs_[0], [ev.ev(a_) for a_ in ks[1:]])
             raise FD.Unknown("call to %s" % nm, n)
         if k == "StringLiteral":
             return A.string_literal(n)
